@@ -39,15 +39,23 @@ def case_strategy(draw, big=False):
         if form == 'all':
             l['attach'] = ['all']
         elif form == 'all-obj':
-            l['attach'] = [{'all': True, 'tag': objs[draw(st.integers(0, len(objs) - 1))]['tag']}]
+            # one or two whole objects, each named by its own statement
+            l['attach'] = [{'all': True, 'tag': objs[k_]['tag']} for k_ in
+                           draw(st.lists(st.integers(0, len(objs) - 1), min_size=1, max_size=min(2, len(objs)), unique=True))]
         else:
             at = []
+            owners = set()
             for j in draw(st.lists(st.integers(0, npl - 1), min_size=1, max_size=3, unique=True)):
                 p = topo.pulses[j]
+                owners.update(lg[0] for lg in p.legs)
                 if form == 'obj' or draw(st.booleans()):
                     at.append({'k': topo.per_obj[p.owner].index(p), 'tag': objs[p.owner]['tag']})
                 else:
                     at.append(j)
+            rest = [k_ for k_ in range(len(objs)) if k_ not in owners and topo.per_obj[k_]]
+            if rest and draw(st.integers(0, 2)) == 0:
+                # ... followed by a whole-object statement for another object
+                at.append({'all': True, 'tag': objs[draw(st.sampled_from(rest))]['tag']})
             l['attach'] = at
         lds.append(l)
     case['loads'] = lds
